@@ -156,8 +156,8 @@ class SvsInst:
                 self.timer_rst_event.set()
             else:
                 self.aggregate(rsv_dict)
-        else:
-            # Reset sync timer
+        elif self.next_sync_timing > time.time():
+            # Reset sync timer (unless a sync Interest is due right now, e.g. for data published in this loop turn)
             self.next_sync_timing = time.time() + self.sample_sync_timer()
             self.timer_rst_event.set()
 
